@@ -107,6 +107,7 @@ def floorPow2? (n : Nat) (k : Int) : Option Nat :=
     let e := encl n k.toNat
     let r := e.lo / D
     if e.g = k.toNat ∧ e.hi < (r + 1) * D then some r
+    else if n > 16 then none                       -- the direct inequality is out of reach there
     else if IsFloorPow2 n k r then some r
     else if IsFloorPow2 n k (r + 1) then some (r + 1)
     else none
@@ -118,7 +119,14 @@ def expArg (E rep : Int) : Nat × Int :=
 /-- `r` is the representation of the true `2^x` truncated to the resolution `2^E` -/
 def IsRef (E rep : Int) (r : Nat) : Prop := IsFloorPow2 (expArg E rep).1 (expArg E rep).2 r
 
-/-- executable reference `⌊2^x · 2^(−E)⌋` -/
-def ref? (E rep : Int) : Option Nat := floorPow2? (expArg E rep).1 (expArg E rep).2
+/-- the true result is at least `2^W` units (not representable in any `W`-bit type) -/
+def tooBig (W : Nat) (E rep : Int) : Bool := decide ((expArg E rep).2 ≥ (W : Int) * 2^(expArg E rep).1)
+
+/-- executable reference `⌊2^x · 2^(−E)⌋` for results below `2^W` units; `none` = not decided here
+(result ≥ `2^W` units, or more fractional bits than `rootTable` has levels) -/
+def ref? (W : Nat) (E rep : Int) : Option Nat :=
+  if tooBig W E rep then none
+  else if (expArg E rep).1 > rootTable.length then none
+  else floorPow2? (expArg E rep).1 (expArg E rep).2
 
 end Cnl.Spec.Exp2
